@@ -81,7 +81,9 @@ def _basis(spec, ctx, R):
         if m == n:
             ctx.check("adjoint_entrywise", _eq(U.quaternion_to_complex_adjoint(A.copy()), embed.chi(A)),
                       site="quaternion_to_complex_adjoint", detail={"unit": a, "pos": [i, j], "shape": [m, n]})
-        ctx.check("roundtrip_bits", _eq(refq.fa(U.real_contract(U.real_expand(A.copy()), m, n)), c), site="contract(expand)")
+        ctx.check("roundtrip_bits", _beq(refq.fa(U.real_contract(U.real_expand(A.copy()), m, n)), c), site="contract(expand)")
+        AHb = refq.herm(A)          # conjugation turns +0.0 vector parts into -0.0: the round trip is bit-for-bit, signs of zeros included
+        ctx.check("roundtrip_bits", _beq(refq.fa(U.real_contract(U.real_expand(AHb.copy()), n, m)), refq.fa(AHb)), site="contract(expand):conjugate_transpose")
     ctx.sample({"shape": [m, n], "enumerated": "e_a at (i,j) for all i,j,a", "count": m * n * 4})
 
 
@@ -108,6 +110,20 @@ def _extreme_entries(rng, cls, m, n):
         c[rng.random((m, n)) < 0.3] = 0.0
     elif cls == "signed_zeros":
         c = np.where(rng.random((m, n, 4)) < 0.5, 0.0, -0.0) + np.where(rng.random((m, n, 4)) < 0.3, c, 0.0)
+    return refq.qa(c)
+
+
+def _beq(a, b):
+    """bit-for-bit equality of two float arrays (distinguishes -0.0 from +0.0, unlike ==)"""
+    a, b = np.asarray(a, dtype=float), np.asarray(b, dtype=float)
+    return a.shape == b.shape and bool(np.array_equal(_bits(a), _bits(b)))
+
+
+def _mixed_zero_signs(rng, A):
+    """A with a random subset of its components replaced by -0.0 / +0.0 (a negative zero next to non-negative components)."""
+    c = refq.fa(A).copy()
+    msk = rng.random(c.shape) < 0.35
+    c[msk] = np.where(rng.random(int(msk.sum())) < 0.6, -0.0, 0.0)
     return refq.qa(c)
 
 
@@ -223,14 +239,17 @@ def _random(spec, ctx, R):
             A2 = gen.layout(A, lay)
             try:
                 back = U.real_contract(U.real_expand(A2), m, k)
-                ok = back.dtype == np.quaternion and _eq(refq.fa(back), refq.fa(A))
+                ok = back.dtype == np.quaternion and _beq(refq.fa(back), refq.fa(A))
                 det = None
             except Exception as e:
                 ok, det = False, {"exception": repr(e)}
             ctx.check("roundtrip_bits", ok, site="contract(expand):" + lay, detail=det)
         # contraction of the oracle's embedding
         ctx.check("roundtrip_bits", _eq(refq.fa(U.real_contract(embed.real_interleaved(A), m, k)), refq.fa(A)),
-                  site="contract(oracle_embedding)")
+                  site="contract(oracle_embedding)")      # value level: the oracle embedding does not promise the sign of its zeros
+        for lab, Z in (("conjugate_transpose", refq.herm(A)), ("negated", -A), ("mixed_signed_zeros", _mixed_zero_signs(rng, A))):
+            back = U.real_contract(U.real_expand(Z.copy()), Z.shape[0], Z.shape[1])
+            ctx.check("roundtrip_bits", _beq(refq.fa(back), refq.fa(Z)), site="contract(expand):" + lab)
         # component split / merge of the Krylov solver
         S = R.solver.QGMRESSolver()
         c4 = S._quat_to_components(A.copy())
